@@ -238,3 +238,28 @@ Proof.
   - intros x Hx. apply sort_members_In in Hx. unfold l, map_vals in Hx. apply in_map_iff in Hx. destruct Hx as [y [<- Hy]].
     apply filter_In in Hy. destruct Hy as [_ Hy]. unfold is_ext in *. cbn [fst]. exact Hy.
 Qed.
+
+(* strictly increasing names are pairwise distinct *)
+Lemma sorted_nodup (m : list (string * json)) : StronglySorted mlt m -> NoDup (map fst m).
+Proof.
+  induction m as [|[k v] r IH]; intros H; cbn [map fst]; [constructor|]. inversion H as [|? ? Hr Hall]; subst.
+  constructor; [|exact (IH Hr)]. intros Hin. apply in_map_iff in Hin. destruct Hin as [[k' v'] [Hk Hin]]. cbn [fst] in Hk. subst k'.
+  rewrite Forall_forall in Hall. pose proof (Hall _ Hin) as Hlt. unfold mlt in Hlt. cbn [fst] in Hlt. rewrite str_ltb_irrefl in Hlt. discriminate.
+Qed.
+(* no object inside an emitted payload has two members with one name *)
+Inductive nodup_names : json -> Prop :=
+| nn_null : nodup_names JNull
+| nn_bool b : nodup_names (JBool b)
+| nn_num m e : nodup_names (JNum m e)
+| nn_str s : nodup_names (JStr s)
+| nn_arr l : (forall x, In x l -> nodup_names x) -> nodup_names (JArr l)
+| nn_obj m : NoDup (map fst m) -> (forall k v, In (k, v) m -> nodup_names v) -> nodup_names (JObj m).
+Theorem payload_nf_nodup : forall j, payload_nf j -> nodup_names j.
+Proof.
+  intros j. remember (jsize j) as n eqn:En. revert j En.
+  induction n as [n IH] using lt_wf_ind. intros j En Hnf. subst n.
+  inversion Hnf as [| | | |l Hl|m Hs Hm]; subst; try constructor.
+  - intros x Hx. apply (IH (jsize x) (jsize_elem l x Hx) x eq_refl (Hl x Hx)).
+  - apply sorted_nodup. exact Hs.
+  - intros k v Hin. apply (IH (jsize v) (jsize_value m k v Hin) v eq_refl (Hm k v Hin)).
+Qed.
